@@ -9,6 +9,9 @@ COMMON_ASSUME = [
 PROPS = {
     "C04": {
         "level": "exploration",
+        "technique": "property-based testing (rapid, model-based schedules) + bounded-exhaustive schedule enumeration against a reference model of sent/received lists",
+        "level_text": "generated and bounded-exhaustive Send/deliver schedules over two FIFO queues on real conversations after a real AKE, judged against a list model; exhaustive for all words up to the stated depth, sampled beyond",
+        "level_note": "sampling beyond the enumerated depth; crypto primitives assumed; empty texts excluded",
         "rule": ("rapid-generated schedules of Send/deliver/age-clock/SMP/extra-key steps over two FIFO queues after a real AKE "
                  "(v2/v3, fragment sizes 0 and [H+1,65535], texts: unique token + filler of 5 kinds, 0..5000 bytes), plus the bounded-exhaustive "
                  "enumeration of all words over {send A, send B, deliver A->B, deliver B->A} (length <= 7 quick / 9 thorough for v3, one less for v2, "
@@ -25,4 +28,50 @@ PROPS = {
              "thorough": {"shards": 16, "timeout": 3000}},
         ],
     },
+    "C02": {
+        "level": "exploration",
+        "technique": "property-based testing (rapid) with a field-aware mutator/forger built on an independent OTR implementation + exhaustive byte/truncation sweep; oracle: no observable effect of any message altered inside the authenticated part",
+        "level_text": "generated attacks (16 mutation/forgery classes, incl. forgeries under MAC keys disclosed on the wire, recomputed keys of retired pairs and of earlier sessions) on the next acceptable data message of real sessions, plus an exhaustive per-offset sweep of one message per prefix class",
+        "level_note": "attacks are those the generator expresses; the observer/ref implementation is trusted to compute keys per the specification",
+        "rule": ("sessions after a real AKE (v2/v3, fragmenting or not, rotations via ping-pong, SMP/extra-key traffic, re-keying); op 'atk' takes the data message at the head of a queue "
+                 "and delivers a variant: bit flip / byte set / truncation / insertion at any offset of header..MAC, field substitutions (flags, key ids, next DH, counter, ciphertext with old MAC, MAC), "
+                 "forgeries MAC'd with a key disclosed on the wire so far, with the recomputed key of a retired pair (fresh counter), with a key of an earlier session, with a random key, and changes outside the authenticated part. "
+                 "Oracle: a variant differing inside the authenticated part must have no effect (no plaintext, SMP/security event, key callback or data-message reply); outside it: no effect or exactly the genuine text; "
+                 "every plaintext returned while encrypted is a text the peer sent in this session (or marked resent / flagged unencrypted). "
+                 "Non-trivial: the attack hit the next acceptable message of an encrypted receiver inside the authenticated part or was a forgery. Sweep: every offset x {^01,^80,:=00,:=FF,truncate}."),
+        "assumptions": COMMON_ASSUME,
+        "exhaustive_checks": ["C02sweep"],
+        "tests": [
+            {"name": "TestProp_C02_Attack", "quick": {"shards": 8, "checks": 40, "timeout": 400}, "thorough": {"shards": 16, "checks": 500, "timeout": 3000}},
+            {"name": "TestProp_C02_Sweep", "kind": "plain", "quick": {"shards": 8, "timeout": 400}, "thorough": {"shards": 16, "timeout": 3000}},
+        ],
+    },
+    "C05": {
+        "level": "exploration",
+        "technique": "property-based testing (rapid): generated histories with replay/duplicate/reorder ops; invariant over the history: each wire message has an observable effect at most once, each text token is delivered at most once",
+        "level_text": "generated session histories (traffic, rotations, SMP, extra key, End + re-AKE) with re-delivery of any recorded data message at any later point, incl. fragments and later sessions",
+        "level_note": "effects are what the public API shows (plaintext, events, callbacks, replies); silent state changes are judged under C06",
+        "rule": ("ops: ping-pong rounds, sends, FIFO and out-of-order deliveries, queue duplication, 'replay' of any recorded data message of the peer (all fragments in order), End+re-AKE ('rekey'), SMP, extra key, clock ageing. "
+                 "Oracle: per (message, receiver) at most one delivery has an effect (plaintext, SMP/security event, key callback, non-error reply); per token at most one delivery. "
+                 "Non-trivial: a message that already had its effect was re-delivered after >=4 further completed deliveries at that receiver, or in a later session."),
+        "assumptions": COMMON_ASSUME + ["texts re-sent by the library's own resend feature (marked '[resent] ') are judged under C18, not here"],
+        "tests": [
+            {"name": "TestProp_C05_Replay", "quick": {"shards": 8, "checks": 40, "timeout": 400}, "thorough": {"shards": 16, "checks": 500, "timeout": 3000}},
+        ],
+    },
+    "C10": {
+        "level": "exploration",
+        "technique": "differential testing against an independent from-the-specification OTR implementation given all parties' randomness (omniscient observer re-derives every key, MAC, signature, counter and layout), on rapid-generated histories; plus two-way interop with the reference peer",
+        "level_text": "every message emitted in generated histories is re-derived byte-for-byte or field-for-field by the independent implementation; messages the reference builds are accepted and read by otr3",
+        "level_note": "the reference implementation (harness/ref) is trusted; libotr itself is not available offline",
+        "rule": ("generated session histories (both versions, fragment sizes, AKE by either side, re-AKE, End, SMP, extra key, heartbeats via clock ageing); the observer, fed with the DRBG output each party received, "
+                 "checks DH-Commit/DH-Key byte-exactly, Reveal-Signature/Signature (commitment, MAC, decryption, DSA over the specified M, key id, public key), data messages (MAC under the derived key, counter strictly increasing per pair and >0, "
+                 "flags, key ids, next DH = g^x of a drawn exponent, TLV layout, disclosed-key field multiple of 20), fragments (canonical syntax, k<=n<=65535), query and whitespace tag versions = policy, instance tags, extra symmetric key at both ends. "
+                 "Non-trivial: the case contained a complete AKE and a data message with sender key id >= 2 (after a rotation)."),
+        "assumptions": COMMON_ASSUME,
+        "tests": [
+            {"name": "TestProp_C10_Observer", "quick": {"shards": 8, "checks": 60, "timeout": 400}, "thorough": {"shards": 16, "checks": 800, "timeout": 3000}},
+        ],
+    },
 }
+NOT_APPLICABLE = {}
